@@ -43,7 +43,7 @@ def build(binname):
         t = time.time()
         p = subprocess.run(cmd, cwd=cwd, env=ENV, stdout=subprocess.PIPE, stderr=subprocess.STDOUT, text=True)
         if p.returncode != 0:
-            log(p.stdout[-6000:])
+            log("\n".join(l for l in p.stdout.split("\n") if l.startswith("error") or "-->" in l and "/verif/" in l)[-4000:])
             raise SystemExit("HARNESS-ERROR build of %s failed" % binname)
         log("[build %s %.1fs]" % (binname, time.time() - t))
     if binname == "server":
